@@ -1,7 +1,8 @@
 """U2: a user-code edge taken while a mutable view of the string is live must publish a valid
 length on its unwind path (guard object whose Drop always calls set_len)."""
+import re
 from facts import callee_name, strip_refs
-from guards import describe
+from guards import describe, anchors
 import r_own
 
 VIEW = ("repr::Repr::as_str_mut", "repr::Repr::as_slice_mut")
@@ -76,6 +77,49 @@ def must_pass(body, pred_blocks):
     return not any(body.term(b)["k"] == "return" and b not in pred_blocks for b in reach)
 
 
+def _never_overtakes(body, gl, A, B):
+    """fields A and B of the guard local gl: initialised to the same constant, A advanced only by
+    `+= w`, and every path from an advance of A reaches an advance of B by the same w before it
+    reaches another advance of A or a return"""
+    from guards import reach_cut
+    init = [x for (bb, si, x) in body.defs.get(gl, []) if si != "term" and x["k"] == "aggregate"]
+    if len(init) != 1 or max(A, B) >= len(init[0]["fields"]):
+        return False
+    fa, fb = init[0]["fields"][A], init[0]["fields"][B]
+    if not ("c" in fa and "c" in fb and fa["c"].get("scalar") is not None and fa["c"].get("scalar") == fb["c"].get("scalar")):
+        return False
+
+    def incs(f):
+        out = []
+        for (pb, si, pp) in body.partial.get(gl, []):
+            if pp and isinstance(pp[0], dict) and pp[0].get("f") == f and len(pp) == 1 and si != "term":
+                e = strip_refs(body.origin_rvalue(body.blocks[pb]["stmts"][si]["rv"]))
+                if e[0] == "field" and e[1][0] == "bin" and e[1][1] == "AddWithOverflow" and e[2] == 0:
+                    e = ("bin", "Add", e[1][2], e[1][3])
+                if e[0] == "bin" and e[1] in ("Add", "AddUnchecked"):
+                    out.append((pb, describe(body, e[3])))
+                else:
+                    out.append((pb, None))
+        return out
+    ia, ib = incs(A), incs(B)
+    if not ia or not ib or any(w is None for _, w in ia + ib) or len({w for _, w in ia + ib}) != 1:
+        return False
+    bblocks = {pb for pb, _ in ib}
+    ablocks = {pb for pb, _ in ia}
+    for pa in ablocks:
+        if pa in bblocks:
+            continue
+        seen = set()
+        for y, lab in body.succ(pa, unwind=False):
+            seen |= reach_cut(body, y, lambda q: q in bblocks)
+        for q in seen:
+            if q in bblocks:
+                continue
+            if body.term(q)["k"] == "return" or q in ablocks:
+                return False
+    return True
+
+
 def rule_U2(ctx, rule="U2"):
     F = ctx.F
     n = 0
@@ -110,7 +154,17 @@ def rule_U2(ctx, rule="U2"):
                         recv = describe(dbody, dbody.origin_operand(ct["args"][0]))
                         ln = describe(dbody, dbody.origin_operand(ct["args"][1]))
                         # the length is a field of the guard; which one?
-                        ctx.ob(rule, dk, "set_len-args", recv.startswith("p1.") and ln.startswith("p1."), how="set_len(%s, %s)" % (recv, ln), detail="guard publishes set_len(%s, %s)" % (recv, ln))
+                        mm = re.match(r"^core::cmp::(?:Ord::)?min\(p1\.(\d+), p1\.(\d+)\)$", ln)
+                        if mm:
+                            # a clamp by the other cursor: the identity when the published cursor never
+                            # overtakes it - both start equal, and whenever the published one advances
+                            # the other advances by the same amount before the next round / the exit
+                            gl0 = dt["pl"]["l"]
+                            for A, B in ((int(mm.group(1)), int(mm.group(2))), (int(mm.group(2)), int(mm.group(1)))):
+                                if _never_overtakes(body, gl0, A, B):
+                                    ln = "p1.%d" % A
+                                    break
+                        ctx.ob(rule, dk, "set_len-args", recv.startswith("p1.") and re.match(r"^p1\.\d+$", ln) is not None, how="set_len(%s, %s)" % (recv, ln), detail="guard publishes set_len(%s, %s)" % (recv, ln))
                         # in the enclosing fn: that field is only advanced after the bytes were written
                         try:
                             fidx = int(ln.rsplit(".", 1)[1])
@@ -126,6 +180,23 @@ def rule_U2(ctx, rule="U2"):
     ctx.need(rule, "crate", "guarded-user-edges", n >= 1, "no user-code edge inside a mutable-view window found (retain changed shape?)", how="%d user-code edge(s) inside a mutable-view window" % n)
 
 
+def _operator_appends(F):
+    """`impl AddAssign<X> for LeanString` whose whole effect is an append of the right-hand side to
+    `self` (`*self += piece` is then `self.push_str(piece)`)"""
+    out = set()
+    base = ("LeanString::push", "LeanString::push_str", "LeanString::try_push_str", "LeanString::try_push")
+    for _ in range(3):      # `+= &LeanString` may go through `+= &str`
+        for i in F.impls:
+            if i["self"] == "LeanString" and i["trait"] == "core::ops::arith::AddAssign":
+                b = F.bodies.get(i["items"].get("add_assign"))
+                if b is None or b.path in out:
+                    continue
+                apps = [t for _, t in b.calls() if callee_name(t) in base or callee_name(t) in out]
+                if len(apps) == 1 and describe(b, b.origin_operand(apps[0]["args"][0])) == "p1" and "p2" in describe(b, b.origin_operand(apps[0]["args"][1])):
+                    out.add(b.path)
+    return tuple(sorted(out))
+
+
 def rule_extend_inplace(ctx, rule="C18-inplace"):
     """Extend impls append every item to the target itself, as it arrives: after a panic of the
     iterator the target holds its old text plus the items yielded so far (what String holds).
@@ -133,7 +204,7 @@ def rule_extend_inplace(ctx, rule="C18-inplace"):
     the `&mut self` parameter as its receiver, and the target is never assigned as a whole."""
     from guards import inlined_sites
     F = ctx.F
-    APPENDS = ("LeanString::push", "LeanString::push_str", "LeanString::try_push", "LeanString::try_push_str", "<LeanString as core::fmt::Write>::write_str",
+    APPENDS = _operator_appends(ctx.F) + ("LeanString::push", "LeanString::push_str", "LeanString::try_push", "LeanString::try_push_str", "<LeanString as core::fmt::Write>::write_str",
                "<LeanString as core::fmt::Write>::write_char", "repr::Repr::push_str", "LeanString::insert", "LeanString::insert_str")
     n = 0
     for i in F.impls:
@@ -164,7 +235,7 @@ def rule_items_appended(ctx, rule="C16-items", traits=("core::iter::traits::coll
     pre-sizing allocation succeeded - is lost on the other arm.)"""
     from guards import edge_fact, describe, empty_edge
     F = ctx.F
-    APP = ("LeanString::push", "LeanString::push_str", "LeanString::try_push", "LeanString::try_push_str", "repr::Repr::push_str")
+    APP = _operator_appends(ctx.F) + ("LeanString::push", "LeanString::push_str", "LeanString::try_push", "LeanString::try_push_str", "repr::Repr::push_str")
     n = 0
     for i in F.impls:
         if i["trait"] not in traits or i["self"] != "LeanString":
@@ -187,6 +258,8 @@ def rule_items_appended(ctx, rule="C16-items", traits=("core::iter::traits::coll
                     k = t.get("local_key")
                     if k and k in F.bodies and (k.startswith("<LeanString as core::iter::traits::collect::Extend<") or k.startswith("<LeanString as core::iter::traits::collect::FromIterator<")):
                         todo.append(k)
+                    elif k and k in F.bodies and k not in anchors(F) and F.bodies[k].j["kind"] != "closure":
+                        todo.append(k)      # a private helper shared by several impls (`extend_pieces(iter)`)
                 continue
             apps = set()
             for bb, t in b.calls():
